@@ -1,9 +1,9 @@
 package balance
 
 import (
-	"time"
 	"fmt"
 	"math/big"
+	"time"
 
 	"github.com/vipnode/vipnode/v2/internal/verifapi"
 	"github.com/vipnode/vipnode/v2/pool/store"
